@@ -305,15 +305,15 @@ fn expected_reach(prop: &str) -> &'static [&'static str] {
 fn components(prop: &str) -> serde_json::Value {
     if prop == "C07" {
         return json!({
-            "real": ["rws::thread_pool::ThreadPool::new/execute and the worker loop (on shuttle-modelled Mutex/mpsc/thread through the cfg(rws_verif) import swap)"],
+            "real": ["rws::thread_pool::ThreadPool::new/execute and the worker loop (on shuttle-modelled Mutex/mpsc/thread: std::sync / std::thread routed through the seam of src/verif/mod.rs in the mirrored copy of /repo/src)"],
             "modelled": ["Mutex, mpsc channel, thread spawn and scheduling: shuttle 0.9.3"],
-            "stub": ["jobs are harness closures (instant / long / rendezvous-of-N / gated)"]
+            "stub": ["jobs are harness closures (instant / long / rendezvous-of-N / gated / panicking); the owner drops the pool after the last hand-over in a share of the runs"]
         });
     }
     json!({
         "real": ["ThreadPool and worker loop", "Server::run accept loop (System engine)", "Server::process / Server::process_request", "Request, Response, App and all controllers, Range, Cors, Header, MimeType, Log", "file-ext, url-build-parse, url-search-params", "kernel filesystem (private scratch tree per run)"],
-        "simulated": ["TcpListener/TcpStream (in-memory, fault-injecting)", "clock (logical tick per read)", "clients (harness tasks)"],
-        "modelled": ["Mutex, mpsc, thread scheduling: shuttle 0.9.3"],
+        "simulated": ["TcpListener/TcpStream (in-memory, fault-injecting)", "clock (clock_gettime interposed: logical time that jumps ahead by up to two minutes; knob)", "disk calls of the code under test (open/read/pread/lseek/statx/chdir interposed: scheduling points and one injected fault per run - early end of file, EIO, EACCES, EMFILE, ENOENT ...)", "process environment (reads and writes are scheduling points)", "clients (harness tasks, incl. a revalidating client)", "the owner of the served directory (removes / replaces the tree between phases in a share of the C13 runs)"],
+        "modelled": ["Mutex, RwLock, Condvar, atomics, mpsc, thread scheduling, thread-locals anywhere in the crate: shuttle 0.9.3 (every std::sync / std::thread / std::env / thread_local! path of /repo/src is routed through src/verif/mod.rs by tools/mirror.sh)"],
         "stub": ["Application wrapper returning Err on scripted connections (delegates to the real App otherwise)", "legacy node: harness accept loop around the real Server::process_request"],
         "not_run": ["main, Server::setup, bootstrap (start-up; property C12 is not applicable)"]
     })
@@ -322,7 +322,8 @@ fn components(prop: &str) -> serde_json::Value {
 fn assumptions(_prop: &str) -> Vec<&'static str> {
     vec![
         "shuttle's models of Mutex, mpsc and thread match std semantics",
-        "task switches happen at synchronisation operations, transport calls and the stage hooks, not between arbitrary instructions",
+        "task switches happen at synchronisation operations, transport calls, stage hooks, environment accesses and (knob) file system calls, not between arbitrary instructions",
+        "OnceLock / LazyLock and grouped imports such as `use std::{sync, env}` are not routed through the seam",
         "the simulated transport's fault kinds stand for kernel TCP behaviour",
         "sampling, not proof: a clean batch is evidence for the explored seeds only",
     ]
